@@ -76,7 +76,16 @@ theorem reward_eq (i : Inst) (as : List Nat) :
   simp only [reward, tourNext_eq]
 
 theorem check_eq (i : Inst) (as : List Nat) : check i as = sortedIsRange as.length as := by
-  simp only [check, Params.tspCheckCmp]; exact permTest_eq as
+  simp only [check, checkWith, Params.tspCheckWidthFromInst, Params.tspCheckCmp, Bool.false_eq_true, if_false]
+  exact permTest_eq as
+
+/-- the repaired clause (width from the instance): width test ∧ sort-and-compare with `arange(n)` -/
+theorem checkWith_true_eq (i : Inst) (as : List Nat) :
+    checkWith true i as = (decide (as.length = i.n) && sortedIsRange i.n as) := by
+  simp only [checkWith, if_true, Params.tspCheckCmp]
+  by_cases h : as.length = i.n
+  · rw [← h, permTest_eq]
+  · simp [h]
 
 end Rl4co.Tsp
 
@@ -93,10 +102,18 @@ theorem tourNext_eq (as : List Nat) : tourNext as = roll1 as := by
 
 theorem reward_eq (i : Inst) (as : List Nat) :
     reward i as = - (List.zipWith (fun src tgt => i.M src tgt) as (roll1 as)).sum := by
-  simp only [reward, tourNext_eq]
+  simp only [reward, Params.atspGatherSrcFirst, if_true, tourNext_eq]
 
 theorem check_eq (i : Inst) (as : List Nat) : check i as = sortedIsRange as.length as := by
-  simp only [check, Params.atspCheckCmp]; exact permTest_eq as
+  simp only [check, checkWith, Params.atspCheckWidthFromInst, Params.atspCheckCmp, Bool.false_eq_true, if_false]
+  exact permTest_eq as
+
+theorem checkWith_true_eq (i : Inst) (as : List Nat) :
+    checkWith true i as = (decide (as.length = i.n) && sortedIsRange i.n as) := by
+  simp only [checkWith, if_true, Params.atspCheckCmp]
+  by_cases h : as.length = i.n
+  · rw [← h, permTest_eq]
+  · simp [h]
 
 end Rl4co.Atsp
 
@@ -117,20 +134,34 @@ theorem selectStartNodes_eq (i : Inst) (B k : Nat) :
     selectStartNodes i B k = (List.range (k * B)).map (fun r => (r / B) % i.h + 1) := by
   simp only [selectStartNodes, numStarts_eq, Params.pdpStartRule]
 
-/-- the checker body with the committed operators -/
-theorem check_unfold (i : Inst) (as : List Nat) :
-    check i as =
-      (let acts := if i.force then as else 0 :: as
-       let L := acts.length
-       let k := L / 2 + 1
-       sortedIsRange L acts && ((acts.drop 1).dropLast).all (fun a => a != 0) &&
-       bcastLt ((List.range (k - 1)).map (fun t => acts.idxOf (1 + t)))
-         ((List.range (L - k)).map (fun t => acts.idxOf (k + t)))) := by
-  simp only [check, Params.pdpCheckPermCmp, Params.pdpCheckDepotCmp, Params.pdpCheckPrecCmp, permTest_eq,
-    bcastLt]
-  have : (fun a : Nat => Cmp.ne.evalNat a 0) = (fun a => a != 0) := by
-    funext a; by_cases h : a = 0 <;> simp [Cmp.evalNat, h]
-  rw [this]
+/-- the action list the checker looks at: the depot is prepended unless the forced start already put it there -/
+def actsOf (i : Inst) (as : List Nat) : List Nat := if i.force then as else 0 :: as
+
+/-- the checker body with the committed operators, every size taken from the width of `acts` -/
+def plainCheck (acts : List Nat) : Bool :=
+  let L := acts.length
+  let k := L / 2 + 1
+  sortedIsRange L acts && ((acts.drop 1).dropLast).all (fun a => a != 0) &&
+  bcastLt ((List.range (k - 1)).map (fun t => acts.idxOf (1 + t)))
+    ((List.range (L - k)).map (fun t => acts.idxOf (k + t)))
+
+theorem checkWith_eq (b : Bool) (i : Inst) (as : List Nat) :
+    checkWith b i as = ((!b || decide ((actsOf i as).length = i.n + 1)) && plainCheck (actsOf i as)) := by
+  have hne : (fun a : Nat => Params.pdpCheckDepotCmp.evalNat a 0) = (fun a => a != 0) := by
+    funext a; by_cases h : a = 0 <;> simp [Params.pdpCheckDepotCmp, Cmp.evalNat, h]
+  have hacts : (if i.force == Params.pdpCheckPrependWhenNotForced then as else 0 :: as) = actsOf i as := by
+    simp only [actsOf, Params.pdpCheckPrependWhenNotForced]; cases i.force <;> rfl
+  cases b
+  · simp only [checkWith, hacts, hne, Params.pdpCheckPermCmp, Params.pdpCheckPrecCmp, permTest_eq, bcastLt,
+      plainCheck, Bool.false_eq_true, if_false, Bool.not_false, Bool.true_or, Bool.true_and]
+  · by_cases h : (actsOf i as).length = i.n + 1
+    · simp only [checkWith, hacts, hne, if_true, ← h, Params.pdpCheckPermCmp, Params.pdpCheckPrecCmp, permTest_eq,
+        bcastLt, plainCheck, Bool.not_true, Bool.false_or, decide_true, Bool.true_and]
+    · simp only [checkWith, hacts, if_true, h, decide_false, Bool.not_true, Bool.false_or, Bool.false_and]
+
+/-- the checker as written (width source = action tensor) -/
+theorem check_unfold (i : Inst) (as : List Nat) : check i as = plainCheck (actsOf i as) := by
+  simp only [check, Params.pdpCheckWidthFromInst, checkWith_eq, Bool.not_false, Bool.true_or, Bool.true_and]
 
 end Rl4co.Pdp
 
